@@ -546,7 +546,78 @@ func (r *vRun) observe() {
 		}
 		r.fetchAll(si, so, &pl)
 	}
+	r.checkMultivariant()
 	_ = g
+}
+
+// checkMultivariant: C16 on the multivariant playlist served at this instant.
+func (r *vRun) checkMultivariant() {
+	if !verifProp("C16") {
+		return
+	}
+	g := r.g
+	w := verifGet(r.m, "index.m3u8?tok=1")
+	verifAssert("C16", "multivariant-200", w.code == 200)
+	if w.code != 200 {
+		return
+	}
+	var mv playlist.Multivariant
+	if err := mv.Unmarshal(w.body); err != nil {
+		verifFail("C16", "multivariant-parses")
+		return
+	}
+	verifReach("multivariant")
+	verifAssert("C16", "exactly-one-variant", len(mv.Variants) == 1)
+	if len(mv.Variants) != 1 {
+		return
+	}
+	v := mv.Variants[0]
+	lead := r.obs[g.lead().stream]
+	verifAssert("C16", "variant-uri-is-leading-stream-with-query", v.URI == lead.id+"_stream.m3u8?tok=1")
+	for _, t := range g.tracks {
+		want := "mp4a.40.2"
+		if t.video {
+			want = "avc1.42c028"
+		}
+		verifAssert("C16", "codecs-lists-every-track", containsCodec(v.Codecs, want))
+	}
+	hasVideo := false
+	naudio := 0
+	for _, t := range g.tracks {
+		if t.video {
+			hasVideo = true
+		} else {
+			naudio++
+		}
+	}
+	if hasVideo {
+		verifAssert("C16", "resolution-and-frame-rate", v.Resolution == "1920x1080" && v.FrameRate != nil && *v.FrameRate > 29.99 && *v.FrameRate < 30.01)
+	}
+	// renditions: every non-leading audio track; all audio tracks of an audio-only multi-track muxer
+	wantRend := 0
+	if g.variant != MuxerVariantMPEGTS {
+		if hasVideo {
+			wantRend = naudio
+		} else if naudio > 1 {
+			wantRend = naudio
+		}
+	}
+	verifAssert("C16", "one-rendition-per-audio-track", len(mv.Renditions) == wantRend)
+	verifAssert("C16", "audio-group-iff-renditions", (v.Audio == "audio") == (wantRend > 0))
+	defaults := 0
+	for i, rd := range mv.Renditions {
+		if rd.Default {
+			defaults++
+			verifAssert("C16", "default-is-first-when-none-marked", i == 0)
+		}
+		verifAssert("C16", "rendition-type-and-group", rd.Type == playlist.MultivariantRenditionTypeAudio && rd.GroupID == "audio")
+	}
+	if wantRend > 0 {
+		verifAssert("C16", "exactly-one-default", defaults == 1)
+	}
+	// BANDWIDTH >= AVERAGE-BANDWIDTH > 0 and their values are lemma.bandwidth's subject (non-linear
+	// in the symbolic durations of this run); here: present, and computing them must not panic.
+	verifAssert("C16", "average-bandwidth-present", v.AverageBandwidth != nil)
 }
 
 func (r *vRun) checkPlaylist(si int, so *vStreamObs, pl *playlist.Media) {
